@@ -83,7 +83,14 @@ impl Drop for AsyncWritableFile {
     fn drop(&mut self) {
         let mut content = vec![];
         swap(&mut content, self.content.get_mut());
-        futures::executor::block_on(self.fs.write()).files.insert(
+        let mut handle = futures::executor::block_on(self.fs.write());
+        // see the sync WritableFile::flush: a file removed (or replaced by a directory) while
+        // the handle was open is not resurrected
+        match handle.files.get(&self.destination) {
+            Some(file) if file.file_type == VfsFileType::File => {}
+            _ => return,
+        }
+        handle.files.insert(
             self.destination.clone(),
             AsyncMemoryFile {
                 file_type: VfsFileType::File,
